@@ -27,7 +27,7 @@ PARITY = [
     ("TriangularFactoredDefiniteMatrix", "factor -> -factor", {"self._factor": 1}, 0, 1),
     ("DenseDefiniteMatrix", "array -> -array", {"self._array": 1, "self._sign": 1}, 1, 1),
     ("DensePositiveDefiniteProductMatrix", "rect_matrix -> -rect_matrix", {"self._rect_matrix": 1}, 0, 1),
-    ("PositiveDefiniteLowRankUpdateMatrix", "(sign, inner) -> (-sign, -inner)", {"self._sign": 1, "self.inner_pos_def_matrix": 1, "self.inner_symmetric_matrix": 1, "self.inner_square_matrix": 1}, 0, 0),
+    ("PositiveDefiniteLowRankUpdateMatrix", "(sign, inner) -> (-sign, -inner)", {"self._sign": 1, "self.inner_pos_def_matrix": 1, "self.inner_symmetric_matrix": 1, "self.inner_square_matrix": 1, "self._capacitance_matrix": 1}, 0, 0),
     ("PositiveDefiniteLowRankUpdateMatrix", "factor_matrix -> -factor_matrix", {"self.factor_matrix": 1, "self.left_factor_matrix": 1, "self.right_factor_matrix": 1}, 0, 1),
 ]
 
